@@ -202,6 +202,18 @@ def gen(ctx, count):
             c["base"] = c["base"][:5]
         if answers.classify(c)["status"] != "ok":
             continue
+        # any distinct integer keys: parser style 1..n, 0-based, sparse, not ascending
+        r = rng.random()
+        k = len(c["base"])
+        if r < 0.25:
+            keys = list(range(k))
+        elif r < 0.4:
+            keys = rng.sample(range(0, 3 * k + 2), k)
+        else:
+            keys = None
+        if keys is not None:
+            c["base"] = [[kk, b, a] for kk, (_, b, a) in zip(keys, c["base"])]
+            c["rekeyed"] = True
         out.append(c)
     return out
 
@@ -213,6 +225,8 @@ def run(ctx):
     for c, impl, (resp, tags) in zip(cases, impls, resps):
         ctx.evaluations += len(c["queries"])
         ctx.bump(f"conds={len(c['base'])}")
+        if c.get("rekeyed"):
+            ctx.bump("keys_0_based_or_sparse")
         W = core.all_worlds(c["n"])
         conds = [(b, a) for _, b, a in c["base"]]
         if any(not any(core.c_fal(cd, w) for w in W) for cd in conds):
